@@ -325,7 +325,7 @@ PROPS = {
 TIERS = {
     "quick": dict(oracle=dict(default=1500, small=1500, mid=60, memo=6, big=2), trace=dict(default=400, small=600, memo=3),
                   probe_depth=2, probe_deep=0, gen=dict(default=1200, small=800), gen_exhaustive=1, mut=4000, src=1500,
-                  src_exhaustive2=False, hist=1200, hist_len=4),
+                  src_exhaustive2=False, hist=6000, hist_len=4),
     "thorough": dict(oracle=dict(default=30000, small=30000, mid=1500, memo=120, big=24, large=2),
                      trace=dict(default=8000, small=8000, memo=40),
                      probe_depth=3, probe_deep=5, gen=dict(default=20000, small=12000, mid=300), gen_exhaustive=2, mut=120000,
@@ -413,6 +413,7 @@ def stream_s1(cx):
     rel = [m for m in mism if cx.P["s1"] is None or re.search(cx.P["s1"], m.split("::", 1)[-1])]
     if rel:
         cx.corr.append(dict(stream="S1", count=len(rel), first=rel[0][:1500]))
+        cx.s1_mismatches = rel
 
 
 def stream_s2(cx, rate0_only=False):
@@ -571,6 +572,121 @@ def stream_s6(cx):
     cx.cov["distinct_nontrivial"] = len(seen)
 
 
+# ---- targeted search: turn an S1 disagreement (a simulated state + an opcode) into fuzzer bytes that
+# drive the REAL generator into that state and make it pick that opcode, then judge the result
+OPBYTE = {}
+
+
+def op_bytes():
+    if not OPBYTE:
+        for l in harness_lines(["tables"]).split("\n"):
+            t = l.split(" ")
+            if t[0] == "opcode":
+                OPBYTE[t[1]] = t[2]
+    return OPBYTE
+
+
+def recipe(kind, p):
+    """plan items that push one slot of `kind` in protocol p without touching the slots below"""
+    R = {
+        "i": ["Int:01"], "f": ["Float"], "n": ["None"], "s": ["Unicode"], "M": ["Mark"], "c": ["Global"],
+        "b": ["NewTrue"] if p >= 2 else ["Int:00"],
+        "y": ["BinString"] if p >= 1 else None,
+        "a": ["ByteArray8"] if p >= 5 else None,
+        "l": ["EmptyList"] if p >= 1 else ["Mark", "List"],
+        "t": ["EmptyTuple"] if p >= 1 else ["Mark", "Tuple"],
+        "d": ["EmptyDict"] if p >= 1 else None,
+        "e": ["EmptySet"] if p >= 4 else None,
+        "z": ["Mark", "FrozenSet"] if p >= 4 else None,
+        "o": (["Global"] + (["EmptyTuple"] if p >= 1 else ["Mark", "Tuple"]) + ["Reduce"]),
+    }
+    return R.get(kind)
+
+
+INTRO = {"Obj": 1, "AddItems": 4, "NewObjEx": 4, "NewObj": 2, "StackGlobal": 4, "Appends": 1, "SetItems": 1,
+         "FrozenSet": 4, "Memoize": 4, "Tuple1": 2, "Tuple2": 2, "Tuple3": 2, "PopMark": 1, "BinPersID": 1,
+         "ReadOnlyBuffer": 5, "NextBuffer": 5, "EmptySet": 4, "BinPut": 1, "LongBinPut": 1, "BinGet": 1, "LongBinGet": 1,
+         "Ext1": 2, "Ext2": 2, "Ext4": 2}
+
+
+def targeted_search(cx, mismatches, budget=40):
+    """returns number of candidate inputs tried; appends to cx.failing when the property fails on one"""
+    tried = 0
+    key = cx.P["key"]
+    seen = set()
+    ob = op_bytes()
+    for m in mismatches:
+        if tried >= budget:
+            break
+        head, _, body = m.partition(" :: ")
+        h = toks(head)
+        if h.get("memo", "0") != "0" or h.get("stack") is None:
+            continue
+        stack = "" if h["stack"] == "-" else h["stack"]
+        cats = [c.strip() for c in body.split(" | ")]
+        for cat in cats:
+            f = cat.split(":")
+            if f[0] == "can_emit" and len(f) >= 4 and f[2] == "model=0" and f[3] == "impl=1":
+                op, kind = f[1], "guard"
+            elif f[0] == "apply" and len(f) >= 3:
+                op, kind = f[2], "effect"
+            else:
+                continue
+            if (stack, op, kind) in seen:
+                continue
+            seen.add((stack, op, kind))
+            for p in range(max(INTRO.get(op, 0), 0), 6):
+                plan = []
+                ok = True
+                for k in stack:
+                    r = recipe(k, p)
+                    if r is None:
+                        ok = False
+                        break
+                    plan += r
+                if not ok:
+                    continue
+                last = op
+                if kind == "guard":
+                    # index of the opcode in the IMPLEMENTATION's valid list for this protocol
+                    vm = [c for c in cats if c.startswith("valid_opcodes:P=%d:" % p)]
+                    if not vm or op not in ob:
+                        continue
+                    impl_hex = vm[0].split("impl=")[-1]
+                    lst = [impl_hex[i:i + 2] for i in range(0, len(impl_hex), 2)]
+                    if ob[op] not in lst:
+                        continue
+                    last = "%s@%d" % (op, lst.index(ob[op]))
+                plan.append(last)
+                cfg = "P=%d unsafe=%s ext=%s buf=%s mask=0 rate=0000000000000000" % (p, h.get("unsafe", "0"), h.get("ext", "0"), h.get("buf", "0"))
+                # a depth drift is often re-absorbed by the collapse phase's TUPLE; draining the stack
+                # with fixed-arity POPs (which treat a MARK as an ordinary element) exposes it
+                for drain in ([], ["Pop"], ["Pop", "Pop"], ["Pop", "Pop", "Pop"]):
+                    full = plan + drain
+                    out = [l for l in drive("steer %s plan=%s\n" % (cfg, ",".join(full))) if l.startswith("steer ")]
+                    if not out or not out[0].startswith("steer ok"):
+                        continue
+                    b = toks(out[0]).get("bytes", "-")
+                    case = "id=0 %s min=%d max=%d warm=0 mode=arb:%s" % (cfg, len(full), len(full), b)
+                    tried += 1
+                    cx.cov["evaluations"] += 1
+                    try:
+                        if key and key != "gen":
+                            _, v = rerun_case(case)
+                            if v.get(key, "").startswith("FAIL"):
+                                cx.failing.append(("oracle", case, v[key]))
+                                return tried
+                        if cx.prop == "C17":
+                            _, tout = rerun_any("S2", case)
+                            if "C17-direct" in tout:
+                                cx.failing.append(("S2", case, tout.split(" FAIL ", 1)[-1][:400]))
+                                return tried
+                    except Exception:
+                        pass
+                break
+    return tried
+
+
 STREAMS = {"S1": stream_s1, "S2": stream_s2, "S3": stream_s3, "S4": stream_s4, "S5": stream_s5, "S6": stream_s6,
            "S2r0": lambda cx: stream_s2(cx, rate0_only=True)}
 
@@ -686,7 +802,11 @@ def check_property(prop, tier, seed):
     elif (not lean["ok"]) or cx.corr:
         # no failing input from the regular budget: search harder near the disagreement before giving up
         n0 = len(cx.failing)
-        if P["key"] and P["key"] != "gen":
+        if getattr(cx, "s1_mismatches", None):
+            # shortest states first: they are the easiest to reach
+            ms = sorted(cx.s1_mismatches, key=lambda m: len(toks(m.partition(" :: ")[0]).get("stack", "")))
+            cov["targeted_inputs_tried"] = targeted_search(cx, ms)
+        if len(cx.failing) == n0 and P["key"] and P["key"] != "gen":
             stream_oracle(cx, profiles=("default", "small", "memo"), mult=3 if tier == "quick" else 1, stop_on_first=True)
         if len(cx.failing) > n0:
             stream, cl, det = cx.failing[n0]
